@@ -869,6 +869,17 @@ add("C10", "pseudo-column exclusion applied regardless of the dialect setting", 
 add("C01", "generator stops consulting a dialect-overridden setting", G,
     "        if not self.LOCKING_READS_SUPPORTED:\n            self.unsupported(\"Locking reads using 'FOR UPDATE/SHARE' are not supported\")\n            return \"\"\n", "", "C01.d")
 
+add("C01", "hive prints ARRAY_UNIQUE_AGG under a name its parser reads as another, differently printed class", "sqlglot/generators/hive.py",
+    '        exp.ArrayUniqueAgg: rename_func("COLLECT_SET"),', '        exp.ArrayUniqueAgg: rename_func("ANY_VALUE"),', "C01.e")
+add("C01", "hive parser reads COLLECT_SET as AnyValue (printed FIRST) while ArrayUniqueAgg is still printed COLLECT_SET", "sqlglot/parsers/hive.py",
+    '        "COLLECT_SET": exp.ArrayUniqueAgg.from_arg_list,', '        "COLLECT_SET": exp.AnyValue.from_arg_list,', "C01.e")
+add("C01", "benign: COLLECT_SET printed by a bespoke lambda", "sqlglot/generators/hive.py",
+    '        exp.ArrayUniqueAgg: rename_func("COLLECT_SET"),', '        exp.ArrayUniqueAgg: lambda self, e: self.func("COLLECT_SET", e.this),', "silent")
+add("C01", "tsql prints TIMESTAMPNTZ as TIMESTAMP, which T-SQL reads as ROWVERSION", "sqlglot/generators/tsql.py",
+    '        exp.DType.TIMESTAMPNTZ: "DATETIME2",', '        exp.DType.TIMESTAMPNTZ: "TIMESTAMP",', "C01.f")
+add("C01", "benign: tsql prints DECIMAL under its own name", "sqlglot/generators/tsql.py",
+    '        exp.DType.DECIMAL: "NUMERIC",', '        exp.DType.DECIMAL: "DECIMAL",', "silent")
+
 add("C13", "star position taken from the cursor after the modifiers were parsed", P,
     "                rename=self._parse_star_op(\"RENAME\"),\n            )\n        ).update_positions(star_token)",
     "                rename=self._parse_star_op(\"RENAME\"),\n            ),\n            token=self._prev,\n        )", "C13.h")
